@@ -16,25 +16,27 @@ inductive SCEV where
   | max     (x y : SCEV)
   deriving Repr, Inhabited
 
-/-- `StringWithRenamer(r)`; the renamer threads a state `σ` (the register map), and Go evaluates
+/-- `StringWithRenamer(r)`; `lbl` maps a loop (its header block) to its `Label`; the renamer threads a state `σ` (the register map), and Go evaluates
     the `Sprintf` arguments left to right -/
-def SCEV.render {σ : Type} (r : Val → σ → String × σ) : SCEV → σ → String × σ
-  | .addRec start step _, st =>
-    let (a, st) := start.render r st
-    let (b, st) := step.render r st
-    ("{" ++ a ++ ", +, " ++ b ++ "}", st)
+def SCEV.render {σ : Type} (lbl : Nat → String) (r : Val → σ → String × σ) : SCEV → σ → String × σ
+  | .addRec start step h, st =>
+    let (a, st) := start.render lbl r st
+    let (b, st) := step.render lbl r st
+    -- `loopSuffix`: the recurrence names the loop it runs with (fix "an induction variable's closed
+    -- form names the loop it runs with"); `lbl h` is `Loop.Label`, "" while the loop is unlabelled
+    ("{" ++ a ++ ", +, " ++ b ++ "}" ++ (if lbl h == "" then "" else "@" ++ lbl h), st)
   | .const v, st => (toString v, st)
   | .unknown none inv, st => (if inv then "?(inv)" else "?", st)
   | .unknown (some v) inv, st =>
     let (n, st) := r v st
     (if inv then n ++ "(inv)" else n, st)
   | .generic op x y, st =>
-    let (a, st) := x.render r st
-    let (b, st) := y.render r st
+    let (a, st) := x.render lbl r st
+    let (b, st) := y.render lbl r st
     ("(" ++ a ++ " " ++ op ++ " " ++ b ++ ")", st)
   | .max x y, st =>
-    let (a, st) := x.render r st
-    let (b, st) := y.render r st
+    let (a, st) := x.render lbl r st
+    let (b, st) := y.render lbl r st
     ("max(" ++ a ++ ", " ++ b ++ ")", st)
 
 /-- `big.Int.Quo`: truncated division (caller excludes a zero divisor) -/
